@@ -98,13 +98,34 @@ func NewSimPool(mode string, seed uint64) *SimPool {
 // poisonVisible fills b with race instrumentation on, so that a stale holder's
 // access that is not ordered after the release is a reported data race.
 func poisonVisible(b []byte, v byte) {
+	if len(b) > poisonFull {
+		// 4 and 8 MiB buffers: the first MiB and the last 64 KiB only (the
+		// runs that use them rarely fill more), to keep such runs affordable
+		poisonVisible(b[:poisonFull], v)
+		poisonVisible(b[len(b)-poisonTail:], v)
+		return
+	}
 	for i := range b {
 		b[i] = v
 	}
 }
 
+const (
+	poisonFull = 1 << 20
+	poisonTail = 64 << 10
+)
+
 //go:norace
 func checkPoison(b []byte, v byte) int {
+	if len(b) > poisonFull {
+		if at := checkPoison(b[:poisonFull], v); at >= 0 {
+			return at
+		}
+		if at := checkPoison(b[len(b)-poisonTail:], v); at >= 0 {
+			return len(b) - poisonTail + at
+		}
+		return -1
+	}
 	for i := range b {
 		if b[i] != v {
 			return i
@@ -115,6 +136,11 @@ func checkPoison(b []byte, v byte) int {
 
 //go:norace
 func fillJunk(b []byte, seed uint64) {
+	if len(b) > poisonFull {
+		fillJunk(b[:poisonFull], seed)
+		fillJunk(b[len(b)-poisonTail:], seed+1)
+		return
+	}
 	x := seed | 1
 	for i := 0; i+8 <= len(b); i += 8 {
 		x ^= x << 13
